@@ -152,6 +152,17 @@ def check_descent(ctx):
                                           "non-dictionary value): TypeError instead of the configured missing-key behaviour"
                                           % (qual, A.short(node, 50), operand.id, P.Path(p.ev[:i]).describe(5)),
                                           construct="dict-op:%s" % A.src(node), path=P.Path(p.ev[:i + 1]))
+                        elif k == "STR" and isinstance(node, ast.Compare) and any(isinstance(o, (ast.In, ast.NotIn)) for o in node.ops):
+                            key = (A.src(node), "substr")
+                            if key in seen:
+                                continue
+                            seen.add(key)
+                            ctx.violation("C08-a", node, "%s tests `%s` where `%s` is a string on the path [%s]: membership in a string "
+                                          "is a substring test, so a key path that runs into a scalar is found when its last part is any "
+                                          "part of the scalar's text (contains(d, 'a.b.c') with d['a']['b'] == 'cd'), and contains no "
+                                          "longer agrees with get_recursively" % (qual, A.short(node, 50), operand.id,
+                                                                                   P.Path(p.ev[:i]).describe(5)),
+                                          construct="substring-membership:%s" % A.src(node), path=P.Path(p.ev[:i + 1]))
                         elif k == DICT:
                             key = (A.src(node), "dict")
                             if key not in seen:
@@ -511,8 +522,33 @@ def check_update_context(ctx):
                 c.check("C08-d", ("data",) in dv.labels and isinstance(node.value.elts[1], ast.Name) and node.value.elts[1].id == ctx_name, node,
                         "UpdateContext returns `%s`: the data part must be the unpacked data and the context the value's own" % A.src(node.value),
                         detail="returns (data, context) of the value", path=state.path)
+            else:
+                plain_returns.append((node, state.path))
 
+    plain_returns = []
     Interp(Pol(res, cls)).run_function(fn)
+    # a path that has written the update hands back the pair (data, context): for a value that came without a context the
+    # dictionary written into is the fresh one get_data_context made, and `return value` would throw the update away
+    vpar = [p for p in A.func_params(fn) if p != "self"][0]
+    for node, path in plain_returns:
+        wrote = None
+        for st in path.stmts():
+            for x in A.walk_local(st):
+                if isinstance(x, ast.Assign) and any(isinstance(t, ast.Subscript) and A.root_name(t) in into_context for t in x.targets):
+                    wrote = x
+                elif isinstance(x, ast.Call) and res.call_canon(x) == "lena.context.functions.update_recursively" and x.args \
+                        and A.root_name(x.args[0]) in into_context:
+                    wrote = x
+        if wrote is not None:
+            ctx.violation("C08-d", node, "UpdateContext.__call__ returns `%s` on a path that has written the update (`%s`) into `%s`: for a "
+                          "value without a context that dictionary is the new one made by get_data_context, which the returned value does "
+                          "not contain -- the addressed item is never set (the documentation promises that the subcontext is always "
+                          "created)" % (A.src(node.value) if node.value is not None else "None", A.short(wrote, 50), ctx_name),
+                          construct="update-lost-on-return", path=path)
+        else:
+            ctx.check("C08-d", isinstance(node.value, ast.Name) and node.value.id == vpar, node, "UpdateContext.__call__ returns `%s` on a path "
+                      "that changes nothing: the value itself must be passed on" % (A.src(node.value) if node.value is not None else "None"),
+                      detail="a skipped value is returned as it came", construct="skip-returns-value", path=path)
     ctx.instances_floor("C08-d", len(sinks), 2, "stores of the update in UpdateContext.__call__")
     # the only stores into the context: {} along the path, the final store
     for n in A.walk_local(fn):
